@@ -529,11 +529,11 @@ def run_programs(ctx, progs, crate="k2sync", with_async=False, prelude=PRELUDE_S
     # every third program of a thread-spawning kind is called from a thread without a name; another third is executed a
     # second time, from a thread called `w2`
     for i, p in enumerate(progs):
-        if main is MAIN_SYNC and p.kind in ("a0t0s1", "a0t1s1") and not p.pid.endswith(("_u", "_2")):
-            if i % 3 == 2:
+        if main is MAIN_SYNC and not p.pid.endswith(("_u", "_2")):
+            if i % 3 == 2 and p.kind in ("a0t0s1", "a0t1s1"):
                 p.pid += "_u"
             elif i % 3 == 1:
-                p.pid += "_2"
+                p.pid += "_2"       # (sequential kinds too: a second execution must do exactly what the first did)
     # structures through the real parser (also a K1 comparison of these inputs)
     cases = [(p.pid, p.kind, p.macro_input(), "k2") for p in progs]
     reals = k1.run_real(cases)
@@ -574,6 +574,12 @@ def run_programs(ctx, progs, crate="k2sync", with_async=False, prelude=PRELUDE_S
         if p.pid in expected2 and not problems:
             spec2, run2 = expected2[p.pid]
             rl2 = lines.get(p.pid + "#2", "MISSING\t")
+            # threads of the first execution that were left detached (the caller panicked at an earlier join) may still log
+            # while the second one runs: only events on `w2` and the threads it named belong to the second execution
+            f2 = rl2.split("\t")
+            if len(f2) > 1:
+                keep = [w for w in f2[1].split(" ") if re.search(r"@w2(?:_join_\d+)*#ThreadId", w) or "@" not in w]
+                rl2 = f2[0] + "\t" + " ".join(keep)
             pr2 = compare_program(p, rl2, spec2, run2)
             if pr2:
                 problems = [(c, "second execution of the same call site, from a thread called `w2`: " + t) for (c, t) in pr2]
